@@ -185,10 +185,12 @@ func (w *World) addContractFile(c *ContractFile) {
 			switch {
 			case prevOwn && !newOwn:
 				fc.merged = true
+				fmt.Fprintf(os.Stderr, "WARNING: %s:%d: summary for %s is ignored: the function has a contract in its own package (%s:%d); state caller-specific facts as `callee NAME ensures`\n", fc.File, fc.Line, full, prev.File, prev.Line)
 				continue
 			case !prevOwn && newOwn:
 				prev.merged = true
 				w.contracts[full] = fc
+				fmt.Fprintf(os.Stderr, "WARNING: %s:%d: summary for %s is ignored: the function has a contract in its own package (%s:%d); state caller-specific facts as `callee NAME ensures`\n", prev.File, prev.Line, full, fc.File, fc.Line)
 				continue
 			}
 			mergeContracts(prev, fc)
@@ -216,6 +218,7 @@ func mergeContracts(dst, src *FuncContract) {
 	dst.Sends = append(dst.Sends, src.Sends...)
 	dst.Guarded = append(dst.Guarded, src.Guarded...)
 	dst.LitEns = append(dst.LitEns, src.LitEns...)
+	dst.LitReq = append(dst.LitReq, src.LitReq...)
 	dst.Effects = append(dst.Effects, src.Effects...)
 	dst.NPTags = append(dst.NPTags, src.NPTags...)
 	for k, v := range src.Inv {
@@ -610,10 +613,10 @@ func (w *World) stmtOrdinal(fn *ssa.Function, sp token.Pos, txt string) int {
 
 // scopeObject finds the object `name` denotes at pos inside fn.
 func (w *World) scopeObject(fn *ssa.Function, pos token.Pos, name string) types.Object {
-	if fn.Pkg == nil || !pos.IsValid() {
+	if fnSSAPkg(fn) == nil || !pos.IsValid() {
 		return nil
 	}
-	sc := fn.Pkg.Pkg.Scope().Innermost(pos)
+	sc := fnTypesPkg(fn).Scope().Innermost(pos)
 	if sc == nil {
 		return nil
 	}
